@@ -1,1 +1,5 @@
+pub mod c26;
+pub mod c27;
+pub mod c28;
 pub mod c29;
+pub mod c32;
